@@ -29,7 +29,7 @@ class CallMixin:
                 directive = "opaque"
         if isinstance(f, ast.Name):
             n = f.id
-            if self.spec_mode or n in ("implies", "old", "at"):
+            if self.spec_mode or n in ("implies", "old", "at", "squeeze"):
                 r = self.spec_macro(n, e, st, exc)
                 if r is not None:
                     return r
@@ -70,6 +70,39 @@ class CallMixin:
             out.append((s, pos, dict(zip(names, vs[npos:]))))
         return out
 
+    def squeeze_term(self, t):
+        if smt.is_const(t):
+            return smt.Str(smt.const_val(t).replace(" ", ""))
+        parts = _sexpr_args(t.s)
+        if parts is not None:
+            op, args = parts
+            if op == "str.++":
+                out = smt.Str("")
+                for a in args:
+                    out = smt.Concat(out, self.squeeze_term(T(a, STR)))
+                return out
+            if op == "ite" and len(args) == 3:
+                return smt.Ite(T(args[0], BOOL), self.squeeze_term(T(args[1], STR)), self.squeeze_term(T(args[2], STR)))
+            if op == "joinr" and len(args) == 1:
+                items = _unit_items(args[0])
+                if items is not None:
+                    out = smt.Str("")
+                    for a in items:
+                        out = smt.Concat(out, self.squeeze_term(T(a, STR)))
+                    return out
+                return self.uf("squeeze_join", [T(args[0], smt.seq(STR)), smt.Str("")], STR)
+            if op == "joinsep" and len(args) == 2:
+                items = _unit_items(args[0])
+                if items is not None:
+                    # a join over a list display: the concatenation itself
+                    out = smt.Str("")
+                    sep = self.squeeze_term(T(args[1], STR))
+                    for k, a in enumerate(items):
+                        out = smt.Concat(out, self.squeeze_term(T(a, STR)) if k == 0 else smt.Concat(sep, self.squeeze_term(T(a, STR))))
+                    return out
+                return self.uf("squeeze_join", [T(args[0], smt.seq(STR)), self.squeeze_term(T(args[1], STR))], STR)
+        return smt.app("str.replace_all", STR, t, smt.Str(" "), smt.Str(""))
+
     # ------------------------------------------------------------- spec macros
     def spec_macro(self, n, e, st, exc):
         if n == "implies":
@@ -95,6 +128,13 @@ class CallMixin:
                 self.old_state = saved
                 self.in_old -= 1
             return [(st, v)]
+        if n == "squeeze":
+            # squeeze(s): s without its blanks, normalised structurally (constants computed, concatenations and
+            # conditionals distributed, joins over a squeezed separator); anything else is an uninterpreted leaf
+            v = self.ev1(e.args[0], st)
+            if v.ty.kind == "opt":
+                v = opt_inner(v)
+            return [(st, mk_str(self.squeeze_term(v.ts[0])))]
         if n == "at":
             # at("label", expr): the value of expr in the state recorded at the snapshot site of that label (sidecar
             # 'snapshots'); only on paths that went through the site
@@ -954,3 +994,61 @@ class CallMixin:
             else:
                 raise Unsupported("break/continue escaping an inlined function")
         return res
+
+
+def _sexpr_args(text):
+    """'(op a b ...)' -> (op, [a, b, ...]) splitting at the top level (string literals and nested parentheses kept whole)"""
+    if not (text.startswith("(") and text.endswith(")")):
+        return None
+    body = text[1:-1]
+    out, depth, cur, i, instr = [], 0, "", 0, False
+    while i < len(body):
+        ch = body[i]
+        if instr:
+            cur += ch
+            if ch == '"':
+                if i + 1 < len(body) and body[i + 1] == '"':
+                    cur += '"'
+                    i += 1
+                else:
+                    instr = False
+        elif ch == '"':
+            instr = True
+            cur += ch
+        elif ch == "(":
+            depth += 1
+            cur += ch
+        elif ch == ")":
+            depth -= 1
+            cur += ch
+        elif ch.isspace() and depth == 0:
+            if cur:
+                out.append(cur)
+                cur = ""
+        else:
+            cur += ch
+        i += 1
+    if cur:
+        out.append(cur)
+    if not out:
+        return None
+    return out[0], out[1:]
+
+
+def _unit_items(text):
+    """'(seq.++ (seq.unit a) (seq.unit b) ...)' or '(seq.unit a)' -> [a, b, ...]"""
+    p = _sexpr_args(text)
+    if p is None:
+        return None
+    op, args = p
+    if op == "seq.unit" and len(args) == 1:
+        return [args[0]]
+    if op == "seq.++":
+        out = []
+        for a in args:
+            sub = _unit_items(a)
+            if sub is None:
+                return None
+            out += sub
+        return out
+    return None
